@@ -70,7 +70,8 @@ def models(vidx_interp):
 
     def helper(flow, P, callee, args):
         short = re.sub(r"::<.*$", "", callee).rsplit("::", 1)[-1]
-        c = [f for f in flow.fns.values() if f.short == short and len(f.params) == len(args) and "Lexer" in (f.params[0][1] if f.params else "") or (f.short == short and short == "is_bidi")]
+        owner = "Quote" if callee.startswith("Quote::") else "Lexer"
+        c = [f for f in flow.fns.values() if f.short == short and len(f.params) == len(args) and owner in (f.params[0][1] if f.params else "") or (f.short == short and short == "is_bidi")]
         if len({f.name for f in c}) != 1:
             raise Unsupported("Lexer::%s not found uniquely in the MIR dump" % short)
         return flow.inline(P, c[0], args)
@@ -231,12 +232,24 @@ def models(vidx_interp):
             return ("agg", "Option::None", [])
         return ("fork", [([h >= 0], ("agg", "Option::Some", [("sint", h)]), {}), ([h < 0], ("agg", "Option::None", []), {})])
 
+    def opt_is(flow, P, callee, args):
+        o = flow.deref_all(P, args[0])
+        if not (isinstance(o, tuple) and o and o[0] == "agg"):
+            raise Unsupported("is_none / is_some of %r" % (o,))
+        none = o[1].endswith("None")
+        return S.TRUE if none == callee.endswith("is_none") else S.FALSE
+
+    def lines_count(flow, P, callee, args):
+        n = z3.Int("nlines_%d" % flow.ctr.next())
+        P.pc.append(n >= 0)
+        return ("sint", n)
+
     def token_new(flow, P, callee, args):
         return ("agg", "Token", [flow.deref_all(P, a) if isinstance(a, Ref) else a for a in args])
 
     return [(r"<str as ToString>::to_string$", to_string), (r"^String::new$", s_new), (r"^String::push$", s_push), (r"^String::push_str$", s_push_str),
             (r"<String as Deref>::deref$|<Vec<.*> as Deref>::deref$|<erg_common::Str as Deref>::deref$|<Str as Deref>::deref$", deref),
-            (r"^Lexer::(?!\w*_error$|invalid_unicode_character$|lex_)\w+$", helper),      # every other method of the lexer is executed, not assumed
+            (r"^Lexer::(?!\w*_error$|invalid_unicode_character$|lex_)\w+$|^Quote::\w+$", helper),      # every other method of the lexer is executed, not assumed
             (r"slice::<impl \[.*\]>::get::<usize>$", slice_get), (r"slice::<impl \[.*\]>::last$", slice_last),
             (r"^Option::<&.*>::copied$|^Option::<&.*>::cloned$", copied), (r"^Option::<.*>::unwrap$|^Result::<.*>::unwrap$", unwrap),
             (r"^Vec::<.*>::len$", v_len), (r"^Vec::<.*>::push$", v_push),
@@ -245,6 +258,7 @@ def models(vidx_interp):
             (r"<Vec<.*> as Index<std::ops::Range<usize>>>::index$", index_range), (r"slice::<impl \[.*\]>::iter$", slice_iter),
             (r"<std::slice::Iter<'_, .*> as Iterator>::position::<", it_position), (r"<std::slice::Iter<'_, .*> as Iterator>::fold::<", it_fold),
             (r"<impl char>::to_digit$", to_digit),
+            (r"^Option::<.*>::is_none$|^Option::<.*>::is_some$", opt_is), (r"str::<impl str>::lines$", deref), (r"<Lines<'_> as Iterator>::count$", lines_count),
             (r"CacheSet::<str>::get", cache_get), (r"str::<impl str>::chars$", deref), (r"<Chars<'_> as Iterator>::count$", chars_count),
             (r"^Token::new(?:_fake)?(?:::<.*>)?$", token_new), (r"<Token as Clone>::clone$", ident)] + fmt_models(items_of)
 
@@ -253,8 +267,9 @@ def run(tier, seed, only=None):
     rep = Report("C08", tier, seed, "other",
                  "Kernel-level partial claim on the lexer: Lexer::lex_single_str (single-line string literals), with consume / peek_cur_ch / emit_singleline_token / "
                  "is_bidi executed as well, on sources `\"` + k arbitrary characters + end of input: (a) no path panics, (b) on every path that returns a token, the token "
-                 "starts at the opening quote's column and the lexer's column afterwards has advanced by the number of source characters consumed.  All other token kinds, "
-                 "multi-line strings, indentation, comments, the token iterator around this function and line numbers are not decided.", partial=bool(only))
+                 "starts at the opening quote's line and column and the lexer's column afterwards has advanced by the number of source characters consumed; (c) "
+                 "Lexer::lex_multi_line_str on `\"\"\"` + k characters + end of input does not panic either.  All other token kinds, the positions of multi-line "
+                 "strings, lex_interpolation_mid, indentation, comments and the token iterator around these functions are not decided.", partial=bool(only))
     rep.trusted += ["rustc nightly -Zunpretty=mir as the semantics of the source", "engines/mirsem.py + engines/mirflow.py", "z3 " + z3.get_version_string()]
     s = Scratch("c08")
     try:
@@ -375,6 +390,58 @@ def run(tier, seed, only=None):
             except Unsupported as e:
                 for ob in (obt, obp):
                     ob.update(verdict=INCONCLUSIVE, reason="unsupported-construct: " + str(e)[:200])
+        # ---- the same question of totality for multi-line literals (entered after the three opening quotes)
+        quote_variants = M.rust_enum_variants(lsrc, "Quote")
+        mm_ = [f for f in fns.values() if f.short == "lex_multi_line_str"]
+        for k in range(kmax + 1):
+            ob = Obligation(dict(base, functions=["Lexer::lex_multi_line_str", "Lexer::consume", "Lexer::emit_multiline_token"], shape="`\"\"\"` + %d character(s) + end of input" % k,
+                                 symbolic=["each character: any Unicode scalar value"], bounds={"chars": k}), key="lex_multi_line_str/total/k=%d" % k)
+            rep.add(ob)
+            if only and not any(o in ob["key"] for o in only.split(",")):
+                ob.update(verdict=INCONCLUSIVE, reason="filtered out")
+                continue
+            if len(mm_) != 1 or not quote_variants or "Double" not in quote_variants:
+                ob.update(verdict=BROKEN, reason="lex_multi_line_str / enum Quote not found as expected")
+                continue
+            chars = [z3.Int("c%d" % i) for i in range(k)]
+            dom = [z3.And(c >= 0, c <= 0x10FFFF, z3.Or(c < 0xD800, c > 0xDFFF)) for c in chars]
+            try:
+                flow = StrFlow(fns, mm_[0], models(interp), dict(vidx, Quote=quote_variants), max_steps=40000)
+                lex = []
+                for f in fields:
+                    lex.append({"chars": ("vec", [("int", 34)] * 3 + [("sint", c) for c in chars]), "cursor": ("int", 3), "col_token_starts": ("int", COL0),
+                                "lineno_token_starts": ("int", 0), "interpol_stack": ("vec", [("agg", "Interpolation::Not", [])])}.get(f, const("lexer_" + f)))
+                pre = {"p_L": ("agg", "Lexer", lex), "_1": Ref("p_L", (), True), "_2": ("agg", "Quote::Double", [])}
+                outs = flow.run("bb0", stop_at=(), pre=pre, pc=list(S.BASE_AXIOMS) + dom)
+                sol = z3.Solver()
+                npaths, npanic, panic_m = 0, 0, None
+                for Q, end in outs:
+                    if end != "return":
+                        continue
+                    sol.push()
+                    sol.add(*Q.pc)
+                    if sol.check() != z3.sat:
+                        sol.pop()
+                        continue
+                    mdl = sol.model()
+                    sol.pop()
+                    npaths += 1
+                    if any(c[0].startswith("PANIC:") for c in Q.calls):
+                        npanic += 1
+                        panic_m = panic_m or ([mdl.eval(c, model_completion=True).as_long() for c in chars], [c[0] for c in Q.calls if c[0].startswith("PANIC:")][0])
+                ob["queries"] = flow.queries + npaths
+                ob["detail"] = {"paths": npaths, "paths that panic": npanic}
+                if npaths == 0:
+                    ob.update(verdict=BROKEN, reason="no feasible path (vacuous encoding)")
+                elif panic_m:
+                    src = '"""' + "".join(chr(v) for v in panic_m[0])
+                    ob["model"] = {"source": src}
+                    ob.update(verdict=VIOLATED, reason="the lexer panics (%s) on the source %s followed by the end of the input" % (panic_m[1].split(":", 1)[1], json.dumps(src)))
+                    panics.append((ob, src))
+                else:
+                    ob.update(verdict=HELD, reason="none of the %d feasible paths reaches a panic, for every choice of the %d character(s)" % (npaths, k))
+            except Unsupported as e:
+                ob.update(verdict=INCONCLUSIVE, reason="unsupported-construct: " + str(e)[:200])
         # ---- native replay
         if panics or drifts:
             nat = NativeRun(s, "erg_parser", "crates/erg_parser/lex.rs", helpers="""
